@@ -1,8 +1,12 @@
-"""C17 spec functions: Sphinx inventory line syntax (A.4 of DESIGN.md)."""
-import re
-from specs import opaque
+"""C17 spec functions: Sphinx inventory line syntax (A.4 of DESIGN.md).
 
-_INT = re.compile(r'\s*[+-]?[0-9]+(_[0-9]+)*\s*\Z')
+Spec functions are plain Python in the verified subset: the same text is translated to SMT
+(recursive definitions) and executed natively for replay / bounded evaluation."""
+from specs import opaque, reads
+try:                                   # native side only (real classes for isinstance)
+    from pydoctor.model import Module, Class, Function, Attribute, DocumentableKind
+except Exception:                      # the VC generator never imports pydoctor
+    pass
 
 
 @opaque
@@ -26,3 +30,82 @@ def first_int(parts: 'Seq[Str]', k: 'Int') -> 'Int':
     if is_int_literal(parts[k]):
         return k
     return first_int(parts, k + 1)
+
+
+def p_idx(line: 'Str') -> 'Int':
+    return first_int(line.split(' '), 2)
+
+
+def parse_ok(line: 'Str') -> 'Bool':
+    """the line has a priority column (first integer token at index >= 2), a location column
+    after it and a non-empty display name after that"""
+    parts = line.split(' ')
+    p = first_int(parts, 2)
+    return p + 1 < len(parts) and ' '.join(parts[p + 2:]) != ''
+
+
+def p_name(line: 'Str') -> 'Str':
+    parts = line.split(' ')
+    return ' '.join(parts[:first_int(parts, 2) - 1])
+
+
+def p_type(line: 'Str') -> 'Str':
+    parts = line.split(' ')
+    return parts[first_int(parts, 2) - 1]
+
+
+def p_prio(line: 'Str') -> 'Int':
+    parts = line.split(' ')
+    return int_of(parts[first_int(parts, 2)])
+
+
+def p_loc(line: 'Str') -> 'Str':
+    parts = line.split(' ')
+    return parts[first_int(parts, 2) + 1]
+
+
+def p_disp(line: 'Str') -> 'Str':
+    parts = line.split(' ')
+    return ' '.join(parts[first_int(parts, 2) + 2:])
+
+
+def usable(line: 'Str') -> 'Bool':
+    """a line pydoctor's reader must keep: well-formed and in the Python domain"""
+    return parse_ok(line) and p_type(line).startswith('py:')
+
+
+def n_bad(lines: 'Seq[Str]', k: 'Int') -> 'Int':
+    """number of malformed lines among lines[:k]"""
+    if k <= 0:
+        return 0
+    return n_bad(lines, k - 1) + (0 if parse_ok(lines[k - 1]) else 1)
+
+
+# ---- writer -------------------------------------------------------------------------------------------
+
+def inv_dom(o: 'Ref[Documentable]') -> 'Str':
+    """Sphinx object type by documented class (statement: 'mapping its qualified name to the page ...')"""
+    if isinstance(o, Module):
+        return 'module'
+    if isinstance(o, Class):
+        return 'class'
+    if isinstance(o, Function):
+        return 'function' if o.kind is DocumentableKind.FUNCTION else 'method'
+    if isinstance(o, Attribute):
+        return 'attribute'
+    return 'obj'
+
+
+def inv_line(o: 'Ref[Documentable]') -> 'Str':
+    return o.fullName() + ' py:' + inv_dom(o) + ' -1 ' + o.url + ' -\n'
+
+
+@reads('contents', 'name', 'parent', 'kind')
+def inv_upto(objs: 'Seq[Ref[Documentable]]', k: 'Int') -> 'Bytes':
+    """inventory text for objs[:k]: pre-order, exactly one line per visible object, nothing below a hidden one"""
+    if k <= 0:
+        return b''
+    o = objs[k - 1]
+    if not o.isVisible:
+        return inv_upto(objs, k - 1)
+    return inv_upto(objs, k - 1) + inv_line(o).encode('utf-8') + inv_upto(list(o.contents.values()), len(o.contents))
